@@ -31,6 +31,10 @@ func parseAddr(s string) (interface{}, error) {
 	return model.Addr(addr), nil
 }
 
+// errNoMemory is returned by cursor commands if there is no memory to show and
+// consequently the view has no cursor.
+var errNoMemory = fmt.Errorf("there is no memory to show")
+
 func commands(m *mode) []consoleui.Command {
 	return []consoleui.Command{{
 		Keys: []string{"down", "d"},
@@ -39,6 +43,9 @@ func commands(m *mode) []consoleui.Command {
 			cmdtools.ParseNum(0, math.MaxInt),
 		},
 		Action: func(_ *consoleui.UI, args ...interface{}) error {
+			if m.view.c == nil {
+				return errNoMemory
+			}
 			return m.view.c.Set(m.view.c.Value() + args[0].(int))
 		},
 	}, {
@@ -48,6 +55,9 @@ func commands(m *mode) []consoleui.Command {
 			cmdtools.ParseNum(0, math.MaxInt),
 		},
 		Action: func(_ *consoleui.UI, args ...interface{}) error {
+			if m.view.c == nil {
+				return errNoMemory
+			}
 			return m.view.c.Set(m.view.c.Value() - args[0].(int))
 		},
 	}, {
@@ -57,6 +67,10 @@ func commands(m *mode) []consoleui.Command {
 			cmdtools.ParseNum(0, math.MaxInt),
 		},
 		Action: func(_ *consoleui.UI, args ...interface{}) error {
+			if m.view.c == nil {
+				return errNoMemory
+			}
+
 			line := args[0].(int)
 			return m.view.c.Set(line)
 		},
@@ -78,7 +92,7 @@ func commands(m *mode) []consoleui.Command {
 				}
 			}
 
-			if idx < 0 {
+			if idx < 0 || m.view.c == nil {
 				return fmt.Errorf("no line with address 0x%x found", addr)
 			}
 
